@@ -150,6 +150,12 @@ def code_point_cases(ctx, n):
 def run_c08(ctx):
     q = ctx.tier == "quick"
     instrs = code_instrs(ctx.registry)
+    # the equations of C08 on the specification's item algebra, for all trees up to a bound (laws E1-E8)
+    cfg = 'SPECIFICATION Spec\nCONSTANTS\n MaxT = %d\n MaxU = %d\nINVARIANTS E1 E2 E3 E4 E5 E6 E7 E8\nCHECK_DEADLOCK FALSE\n' % ((4, 2) if q else (5, 3))
+    _, st = pv.run_tlc_model("MC_ItemLaws", cfg, ctx.work, workers=10, tag="mc_itemlaws")
+    if "error" in st:
+        raise pv.ToolError("TLC failed on MC_ItemLaws:\n" + st["error"])
+    ctx.stats["states"] += st["states"]; ctx.stats["transitions"] += st["transitions"]; ctx.stats["tlc_runs"].append(st)
     three = ["CODE.SUBST"]
     two = [n for n in instrs if n not in three]
     mc_stage(ctx, "code_trees", two, dict(CodePool="trees", IntVals=[-7, -1, 0, 1, 2, 3, 4, 5, 9] if not q else [-1, 0, 1, 3, 5], DInt=1, DCode=2, DExec=1, FloatVals=[F["one"]]))
@@ -1193,6 +1199,7 @@ def run_ext(ctx):
         if i % 7 == 0:
             s["bind"] = {k: g.item(g.r.randint(1, 3)) for k in g.r.sample(["a", "B", "ab", "a.b", "a-b", "Z", "_x", "b", "aa", "A1", "a1", "~", "0"], g.r.randint(0, 6))}
         cs.append({"id": "statetext-%05d" % i, "pre": s, "acts": [{"a": "state_text"}, {"a": "steps", "k": 2}, {"a": "state_text"}]})
+    cs.append({"id": "fresh-state", "fresh": True, "pre": gen.empty_state(), "acts": [{"a": "state_text", "fresh": True}]})
     run_events(ctx, "state_text", cs)
 
 
